@@ -612,8 +612,70 @@ def run_clash(ctx, spec):
                                                              "family": "module-vs-definition-names"})
 
 
+def run_implied(ctx, spec):
+    """Modules that are only implied (enclosing modules of a declared one): a name that designates one designates a module -
+    never something of the same name further out - whether or not another file spells that module out."""
+    path = ["A", "B", "C", "D"]
+    items = []
+    n = 0
+    for depth in (3, 4):
+        ref_level = "::".join(path[:depth])
+        for k in range(1, depth):                # the implied module path[:k+1], named path[k]
+            name = path[k]
+            for j in range(1, k + 1):            # a definition of that name in an enclosing module further out
+                outer = "::".join(path[:j])
+                if j == k:
+                    continue                     # that would be the module's own name: a redefinition
+                for kind in ("struct", "enum", "custom", "alias"):
+                    for spelled_out in (False, True):
+                        for position in ("field", "parameter", "alias", "seq-elem"):
+                            for spelling in (name, path[k - 1] + "::" + name if k >= 1 else name):
+                                n += 1
+                                x = make_x(kind, outer)
+                                x.id = name
+                                files = [File(outer, [x])]
+                                if spelled_out:
+                                    files.append(File("::".join(path[:k + 1]), []))
+                                d, t = ref_def(position, spelling, n)
+                                files.append(File(ref_level, [d]))
+                                if n % 2:
+                                    files.reverse()
+                                prog = Program(files)
+                                v = verdict(prog.table(), position, spelling, ref_level)
+                                items.append((printer.print_program(prog), position, spelling, v, ref_level, n, spelled_out))
+    resps = ctx.worker.batch([{"op": "compile", "files": it[0], "want": ["ast", "codes"]} for it in items])
+    for (texts, position, spelling, v, ref_level, k2, spelled_out), r in zip(items, resps):
+        ctx.note_case(("implied", tuple(texts)))
+        ctx.stats["implied_module_cases"] += 1
+        replay = {"kind": "library", "call": "compile_from_strings", "files": texts, "family": "implied-modules", "expected": v[0],
+                  "enclosing_module_spelled_out_by_a_file": spelled_out}
+        if "died" in r or r.get("panic"):
+            p = r.get("panic") or {"message": "worker " + r["died"], "location": "?"}
+            ctx.violate(core.panic_signature(p), "resolution crashed: %s" % p, replay)
+            continue
+        errs = [x for x in r["codes"] if x[1] == "error"]
+        replay["codes"] = errs[:4]
+        if v[0] == "ok":
+            if errs:
+                ctx.violate("valid-reference-rejected-implied:" + errs[0][0], "reference '%s' from %s designates %s but was rejected: %r"
+                            % (spelling, ref_level, v[1].scoped(), errs[0]), replay)
+                continue
+            d = find_ref_dump(r["files"], "R%d" % k2)
+            ok, why = bound_matches(d, v, position) if d else (False, "reference not found in the AST")
+            if not ok:
+                ctx.violate("wrong-binding-implied:" + position, "reference '%s' in %s position from module %s: %s" % (spelling, position, ref_level, why), replay)
+        else:
+            if not errs:
+                ctx.violate("invalid-reference-accepted:implied-module:" + v[0], "reference '%s' in %s position from module %s designates %s (an enclosing "
+                            "module is met first on the way out) but compiled without error" % (spelling, position, ref_level,
+                                                                                             "a module" if v[0] == "E017" else "nothing"), replay)
+            elif not any(x[0] == v[0] for x in errs):
+                ctx.violate("invalid-reference-wrong-code:implied-module:" + v[0], "reference '%s' from %s: expected %s, got %s"
+                            % (spelling, ref_level, v[0], [x[0] for x in errs]), replay)
+
+
 def run_shard(ctx, spec):
-    {"repeat": run_repeat, "clash": run_clash, "arr": run_arrangements, "together": run_together, "chains": run_chains, "random": run_random}[spec[0]](ctx, spec)
+    {"implied": run_implied, "repeat": run_repeat, "clash": run_clash, "arr": run_arrangements, "together": run_together, "chains": run_chains, "random": run_random}[spec[0]](ctx, spec)
 
 
 def plan(tier, seed):
@@ -626,7 +688,7 @@ def plan(tier, seed):
     specs += [("random", n // 16, i) for i in range(16)]
     n = 1600 if tier == "quick" else 40000
     specs += [("repeat", n // 16, i) for i in range(16)]
-    specs += [("clash",)]
+    specs += [("clash",), ("implied",)]
     return specs
 
 
@@ -648,7 +710,7 @@ def main(tier, seed):
               "distinct_nontrivial = distinct arrangements / chain programs / random programs" % (len(SPELLINGS), len(POSITIONS))),
         required={"arrangements": 300, "bindings_checked": 3000, "invalid_refs_checked": 3000, "alias_chains_flattened": 500,
                   "alias_chain_loops": 50, "lookups_checked": 1000, "random_programs": 100, "together_programs": 200, "bindings_checked_together": 10000,
-                  "repeat_programs": 1000, "repeat_bindings_checked": 20000, "repeat_invalid_refs_checked": 500, "clash_cases": 300},
+                  "repeat_programs": 1000, "repeat_bindings_checked": 20000, "repeat_invalid_refs_checked": 500, "clash_cases": 300, "implied_module_cases": 200},
         assumptions=["first match wins, then its kind is checked (a wrong-kind inner match is an error, the search does not continue)",
                      "carried alias attributes are compared as a multiset after the use site's own attributes"],
         exhaustive=True,
